@@ -72,6 +72,28 @@ def c18_hash():
     return h.hexdigest()[:24]
 
 
+def run_anymod_bounded(tier, seed):
+    """bounded validation of the assumed contract of key_transforms::is_any_modifier against the real function"""
+    import witness
+    out = dict(name='anymod_bounded', kind='enumerative (bounded)', counts_as_proof=False)
+    try:
+        exe = witness.build()
+    except Exception as e:
+        out['undecided'] = 'harness build failed: %s' % str(e)[-300:]; return out
+    t0 = time.time()
+    p = subprocess.run([exe, 'anymod'], stdout=subprocess.PIPE, stderr=subprocess.PIPE, timeout=600)
+    try:
+        d = json.loads(p.stdout.decode().strip().split('\n')[-1])
+    except Exception as e:
+        out['undecided'] = 'probe output unreadable: %s %s' % (e, p.stderr.decode()[-300:]); return out
+    out.update(exhaustive=False, evaluations=d['cases'], distinct_nontrivial=d['cases'], sample='[LEFTSHIFT, A]', wall_s=round(time.time() - t0, 2),
+               explanation='real key_transforms::is_any_modifier compared with "the list contains one of the 8 modifier keys" for every list of length <= 4 over the 8 modifiers and 2 other keys (%d lists); this backs the ASSUMED contract of that function, it is bounded and not counted as proof' % d['cases'],
+               bound='list length <= 4, alphabet of 10 keys')
+    out['violations'] = len(d['failures'])
+    out['violation_list'] = [dict(input=f['input'], what=f['what']) for f in d['failures'][:1]]
+    return out
+
+
 def run_c18_native(tier, seed):
     """exhaustive native enumeration through a real pipe (harness crate, real dev_input_rw.rs / struct_ser.rs / key_codes.rs)"""
     import witness
